@@ -333,16 +333,18 @@ partial def loop (h : IO.FS.Stream) (d : DS) : IO Unit := do
             if single && total == 0 then say d op (fmtRet 0 .nil) (some e.id)
             else if d.maxwb > 0 && left c + total > d.maxwb then say (failE d e.id .overflow) op (fmtRet (-1) .overflow) (some e.id)
             else if !c.q.isEmpty then
-              let q := if single then enqueue c.q total else sizes.foldl (fun q k => if k == 0 && false then q else enqueue q k) c.q
+              let q := if single then enqueue c.q total else sizes.foldl (fun q k => if k == 0 then q else enqueue q k) c.q
               say (d.put { e with c := { c with q := q } }) op (fmtRet total .nil) (some e.id)
             else
               match ans.head? with
               | some .ok => say (d.put { e with c := { c with wT := false, wTdial := false } }) op (fmtRet total .nil) (some e.id)
               | some .fail => say (failE d e.id .epipe) op (fmtRet (if single then -1 else 0) .epipe) (some e.id)
               | a =>
-                -- EAGAIN / EINTR / exhausted script
-                if single then say (d.put { e with c := { c with q := [.buf total] } }) op (fmtRet total .nil) (some e.id)
-                else say d op (fmtRet 0 (if a == some .intr then .other else .again)) (some e.id)
+                -- EAGAIN / EINTR / exhausted script: nothing could be written now, the whole input is cached
+                -- (Write and, since the C01 repairs, Writev alike; empty buffers are not queued)
+                let _ := a
+                let q := if single then [.buf total] else sizes.foldl (fun q k => if k == 0 then q else enqueue q k) []
+                say (d.put { e with c := { c with q := q } }) op (fmtRet total .nil) (some e.id)
         | _, _ => bad
       else if op == "close" then
         bad
